@@ -67,6 +67,7 @@ def oracle(reset, evs):
         out.append((kind, desc))
 
     dcall, dret, starts, finish, panic, recv, intact = {}, {}, {}, {}, {}, {}, set()
+    rdrop = {}
     jcall = jret = None
     jres = None
     wpanics, wexits = [], []
@@ -91,6 +92,10 @@ def oracle(reset, evs):
             if i in recv:
                 bad("harness", "receiver of task %s resolved twice" % i)
             recv[i] = (n, ev["r"], ev.get("val", True))
+        elif e == "rdrop":
+            if i in rdrop or i in recv:
+                bad("harness", "receiver of task %s dropped twice / after it resolved" % i)
+            rdrop[i] = n
         elif e == "jcall":
             jcall = n
         elif e == "jret":
@@ -132,10 +137,27 @@ def oracle(reset, evs):
         if i not in starts or f[0] < starts[i][0][0]:
             bad("harness", "task %s finished without a start event" % i)
 
+    # --- every accepted closure is started, whether or not the caller kept its receiver
+    #     (fire-and-forget dispatch).  With healthy workers nothing can take an accepted closure
+    #     away unstarted: dispatch() closures are all called before join returns (the last tick of
+    #     block_on polls every freshly spawned task), dispatch_blocking closures by the end of the run.
+    if fault == "none" and jres == "ok":
+        for i in sorted(accepted):
+            st = starts.get(i, [])
+            forgot = " (its receiver had been dropped)" if i in rdrop else ""
+            if not st:
+                bad("accepted_never_started", "closure %s was accepted by %s and never called%s"
+                    % (i, "dispatch" if kind.get(i) == "async" else "dispatch_blocking", forgot))
+            elif kind.get(i) == "async" and st[0][0] > jret:
+                bad("accepted_never_started", "closure %s was accepted and not called before join returned%s"
+                    % (i, forgot))
+
     # --- result delivery / cancellation
     for i in accepted:
+        if i in rdrop and i not in recv:
+            continue            # fire and forget: nobody listens
         if i not in recv:
-            bad("harness", "accepted task %s: receiver never polled by the harness" % i)
+            bad("harness", "accepted task %s: receiver neither polled nor dropped by the harness" % i)
             continue
         n, r, val = recv[i]
         if i in finish:
